@@ -315,6 +315,18 @@ func (x *Exec) addMod(env *SpecEnv, m *ModSet, e Expr) {
 			T := x.typeArg(env, e.Args[0])
 			m.whole["E|"+typeName(T.G)] = true
 			return
+		case "allfields":
+			// every field (and ghost field) of every object of the given (possibly instantiated generic) struct type
+			T := x.typeArg(env, e.Args[0])
+			t := T.G
+			if p, ok := t.Underlying().(*types.Pointer); ok {
+				t = p.Elem()
+			}
+			m.whole["F|"+typeName(t)+"|"] = true
+			if n, ok := t.(*types.Named); ok && n.Obj().Pkg() != nil {
+				m.whole["G|"+x.P.Short[n.Obj().Pkg().Path()]+"."+n.Obj().Name()+"."] = true
+			}
+			return
 		case "allmaps":
 			T := x.typeArg(env, e.Args[0])
 			mt := T.G.Underlying().(*types.Map)
